@@ -292,7 +292,7 @@ Proof.
   { unfold sync_reply, validate_a, absm. pcbn. rewrite Hns, He, Hz, Hg, Hst. reflexivity. }
   rewrite Hrep in H.
   assert (EA : absm c' (sync_park m) = a_send_sync INone true (absm c m)).
-  { unfold absm, a_send_sync, sync_park, focus_of, rgen_of, ib_of, c', ent_jp, ent_sp. pcbn. rewrite Hp. cbn [ph_eqb c_gen c_st c_ents c_pend].
+  { unfold absm, a_send_sync, sync_park, focus_of, rgen_of, ib_of, c', ent_jp, ent_sp. pcbn. rewrite Hp, Hib. cbn [ph_eqb c_gen c_st c_ents c_pend].
     rewrite ids_set_sp.
     fold (flag_of e_jp (m_id m) (set_sp (m_id m) true (c_ents c))) (flag_of e_sp (m_id m) (set_sp (m_id m) true (c_ents c)))
          (flag_of e_jp 0 (set_sp (m_id m) true (c_ents c))) (flag_of e_sp 0 (set_sp (m_id m) true (c_ents c))).
